@@ -1232,6 +1232,21 @@ impl Typer {
         self.norm(ty)
     }
 
+    /// queue a constraint for `solve` (which is already `pub`)
+    pub fn verif_push_constraint(&mut self, constraint: Constraint) {
+        self.push_constraint(constraint);
+    }
+
+    /// the constraints `solve` left in the queue
+    pub fn verif_constraints(&self) -> &[Constraint] {
+        &self.constraints
+    }
+
+    /// number of keys of the union-find table
+    pub fn verif_var_count(&mut self) -> u32 {
+        self.uni.len() as u32
+    }
+
     /// (root key, value stored at the root) of variable `index`
     pub fn verif_probe(&mut self, index: u32) -> (u32, Option<tast::Ty>) {
         use ena::unify::UnifyKey;
